@@ -365,6 +365,7 @@ def score_case(rng, kind="score", lay=None, cc=None, nframes=None, strategies=No
         lines.append(f"score parse {hx(data)}"); expect.append(exp)
         encs.append(dict(strategy=st, wrapped=w is not None, inner_off=(24 + 4 * len(w[4])) if w is not None else 0, recs=recs_txt(recs) if len(recs_txt(recs)) < 3000 else "(long)"))
         if with_ser and len(lines) <= 2:
+            lines.append(f"score stepsum {hx(data)}"); expect.append(None)
             lines.append(ser_line(spec, recs, w)); expect.append(None)
             lines.append(f"score fold {lay} {cc} {recs_txt(recs)}"); expect.append(exp)
     spec["encodings"] = encs
@@ -497,7 +498,7 @@ def malformed_cases(rng, n):
                 struct.pack_into(">h", data, io + 16, rng.choice([0, 1, 2, 3, 1639]))
                 what += "+cc-clamped"
         h = hx(bytes(data))
-        lines = [f"score parse {h}", f"score parsedata {h}", f"score stepsobs {h}"]
+        lines = [f"score parse {h}", f"score parsedata {h}", f"score stepsobs {h}", f"score stepsum {h}"]
         if k % 4 == 0:
             lines.append(f"score allocok {h}")
         out.append(Case(kind="malformed", spec=dict(what=what, hex=h[:3000]), lines=lines, expect=[None] * len(lines)))
@@ -520,7 +521,7 @@ def size_word_cases():
                 else:
                     body = struct.pack(">h", 2 + 4 + 8) + struct.pack(">hh", 8, v) + payload + struct.pack(">h", 2)
                 d = struct.pack(">iiihhhh", 20 + len(body), 0x14, 1, 0, fs, 3, 0) + body
-                lines += [f"score parsedata {hx(d)}", f"score stepsobs {hx(d)}"]
+                lines += [f"score parsedata {hx(d)}", f"score stepsobs {hx(d)}", f"score stepsum {hx(d)}"]
             out.append(Case(kind="size-words-exhaustive", spec=dict(lay=lay, where=where), lines=lines, expect=[None] * len(lines)))
     return out
 
@@ -539,7 +540,7 @@ def header_cases(heavy=False):
                 if heavy:
                     lines += [f"score parsedata {hx(d)}"]
                 continue
-            lines += [f"score parsedata {hx(d)}", f"score allocok {hx(d)}", f"score stepsobs {hx(d)}"]
+            lines += [f"score parsedata {hx(d)}", f"score allocok {hx(d)}", f"score stepsobs {hx(d)}", f"score stepsum {hx(d)}"]
     out.append(Case(kind="header-exhaustive", spec=dict(), lines=lines, expect=[None] * len(lines)))
     return out
 
@@ -640,6 +641,52 @@ def steps_obs(data: bytes):
     return dict(ok=False, records=cnt["records"])     # counters inside a raising record are not compared
 
 
+_LOOPLINES = None
+
+
+def _loop_lines():
+    """{code object: set of first-body-line numbers of its for/while loops} for the three functions of the score pipeline that loop"""
+    global _LOOPLINES
+    if _LOOPLINES is None:
+        import ast, inspect, textwrap
+        from drxtract.vwsc import vwsc, cparser
+        out = {}
+        for fn in (vwsc.parse_vwsc_data, vwsc.vwsc_to_score, cparser.VwscChannelParser.parse_vwsc_channels):
+            src, start = inspect.getsourcelines(fn)
+            tree = ast.parse(textwrap.dedent("".join(src)))
+            out[fn.__code__] = {start + l.body[0].lineno - 1 for l in ast.walk(tree) if isinstance(l, (ast.For, ast.While))}
+        _LOOPLINES = out
+    return _LOOPLINES
+
+
+def stepsum_real(data: bytes):
+    """line events on the first body line of every loop of parse_vwsc_data, parse_vwsc_channels and vwsc_to_score while
+    vwsc_to_score(parse_vwsc_file_data(data)) runs (C10's convention); counted whether or not the call raises"""
+    from drxtract.vwsc import vwsc
+    codes = _loop_lines()
+    cnt = [0]
+    def mk(lines):
+        def local(frame, event, arg):
+            if event == "line" and frame.f_lineno in lines:
+                cnt[0] += 1
+            return local
+        return local
+    def glob(frame, event, arg):
+        if event == "call" and frame.f_code in codes:
+            return mk(codes[frame.f_code])
+        return None
+    sys.settrace(glob)
+    try:
+        vwsc.vwsc_to_score(vwsc.parse_vwsc_file_data(data))
+    except _Timeout:
+        raise
+    except Exception:
+        pass
+    finally:
+        sys.settrace(None)
+    return cnt[0]
+
+
 def alloc_ok(data: bytes):
     """peak traced allocation of parse_vwsc_data stays below 4 MiB (the largest legitimate buffer is 32767*24 bytes)"""
     import tracemalloc
@@ -673,6 +720,8 @@ def impl(case):
             out.append(guarded(lambda: CHANNEL_PARSERS[FS[t[2]]].parse_vwsc_channels(bytearray(B(t[3])), 1)))
         elif cmd == "stepsobs":
             out.append(guarded(lambda: steps_obs(B(t[2]))))
+        elif cmd == "stepsum":
+            out.append(guarded(lambda: stepsum_real(B(t[2]))))
         elif cmd == "allocok":
             out.append(guarded(lambda: alloc_ok(B(t[2]))))
         elif cmd == "ser":
